@@ -18,7 +18,7 @@ import ufl.algorithms.check_restrictions
 import ufl.checks
 import ufl.formatting.ufl2unicode
 import ufl.sorting
-from mc.props.c27_snap import dag_nodes, kind_of
+from mc.props.c27_snap import bf_exprs, dag_nodes, kind_of
 from ufl import algorithms as A
 from ufl.algorithms import compute_form_data
 from ufl.algorithms.analysis import (
@@ -74,8 +74,9 @@ class Event:
         self.first_only = first_only  # only meaningful on the input itself (target index 0)
 
 
-F, E_, I_ = "form", "expr", "integral"
+F, E_, I_, B_ = "form", "expr", "integral", "baseform"
 FEI = (F, E_, I_)
+FEIB = (F, E_, I_, B_)
 FI = (F, I_)
 
 
@@ -90,6 +91,8 @@ def roots_of(t):
         return [t._integrand]
     if k == "expr":
         return [t]
+    if k == "baseform":
+        return [r for r in bf_exprs(t) if isinstance(r, Expr)]
     return []
 
 
@@ -637,6 +640,13 @@ def _eq_steps(t, c, cx):
         r.append(cx.step(lambda: [a.integrand() == b.integrand() for a, b in zip(t.integrals(), c.integrals())]))
         r.append(cx.step(lambda: c.equals(t)))
         r.append(cx.step(lambda: len({t, c})))
+    elif kind_of(t) == "baseform":
+        r.append(cx.step(lambda: t.equals(c)))
+        r.append(cx.step(lambda: bool(t == c)))
+        r.append(cx.step(lambda: t != c))
+        r.append(cx.step(lambda: hash(t) == hash(c)))
+        r.append(cx.step(lambda: c.equals(t)))
+        r.append(cx.step(lambda: len({t, c})))
     elif isinstance(t, Integral):
         r.append(cx.step(lambda: t == c))
         r.append(cx.step(lambda: t.integrand() == c.integrand()))
@@ -766,6 +776,76 @@ def ev_group_integrals(t, cx):
     return g
 
 
+# ---- base form events -----------------------------------------------------------------------------
+def _arg_spaces(t, cx):
+    try:
+        args = t.arguments()
+    except Exception:  # noqa: BLE001
+        args = ()
+    return [a.ufl_function_space() for a in args]
+
+
+def ev_action_identity(t, cx):
+    """Identity simplifications: Action(Coargument, X) -> X and Action(X, Argument) -> X."""
+    from ufl.classes import Coargument
+
+    V = cx.U.t.get("V") or (_arg_spaces(t, cx) or [None])[0]
+    if V is None:
+        m = cx.U.mesh
+        V = ufl.FunctionSpace(m, m.ufl_coordinate_element())
+    r = ufl.action(Coargument(V.dual(), 0), t)
+    cx.secondary(cx.step(lambda: ufl.action(t, Argument(V, 0))))
+    cx.secondary(cx.step(lambda: ufl.classes.Action(Coargument(V.dual(), 1), t)))
+    return r
+
+
+def ev_bf_action(t, cx):
+    sp = _arg_spaces(t, cx)
+    w = Coefficient(sp[-1])
+    r = ufl.action(t, w)
+    cx.secondary(cx.step(lambda: t * w))
+    cx.secondary(cx.step(lambda: t @ w))
+    cx.secondary(cx.step(lambda: t(w)))
+    return r
+
+
+def ev_bf_adjoint(t, cx):
+    r = ufl.adjoint(t)
+    cx.secondary(cx.step(lambda: ufl.adjoint(r)))
+    cx.secondary(cx.step(lambda: ufl.classes.Adjoint(ufl.classes.Adjoint(t))))
+    return r
+
+
+def ev_bf_arith(t, cx):
+    from ufl.classes import FormSum
+
+    r = t + t
+    cx.secondary(cx.step(lambda: t - t))
+    cx.secondary(cx.step(lambda: 2 * t))
+    cx.secondary(cx.step(lambda: -t))
+    cx.secondary(cx.step(lambda: FormSum((t, 1))))
+    cx.secondary(cx.step(lambda: FormSum((t, 1), (t, 2.5))))
+    cx.secondary(cx.step(lambda: sum([t, t])))
+    cx.secondary(cx.step(lambda: t + 0))
+    c = cx.U.t.get("c")
+    if c is not None:
+        cx.secondary(cx.step(lambda: t + c))
+        cx.secondary(cx.step(lambda: c - t))
+    return r
+
+
+def ev_bf_accessors(t, cx):
+    r = []
+    for name in ("arguments", "coefficients", "ufl_domains", "ufl_domain", "empty"):
+        r.append(cx.step(lambda name=name: repr(getattr(t, name)())))
+    r.append(cx.step(lambda: hash(t)))
+    r.append(cx.step(lambda: t.equals(t)))
+    r.append(cx.step(lambda: bool(t == t)))
+    r.append(cx.step(lambda: (str(t), repr(t))))
+    r.append(cx.step(lambda: repr(t.ufl_operands)))
+    return ("value", r)
+
+
 # ---- expression constructors (operators applied to an existing expression) -----------------------
 def ev_op_abs(t, cx):
     r = abs(t)
@@ -818,6 +898,7 @@ def ev_op_tensor(t, cx):
         cx.secondary(cx.step(lambda: ufl.transpose(ufl.transpose(t))))
         cx.secondary(cx.step(lambda: ufl.sym(t) + ufl.skew(t)))
         cx.secondary(cx.step(lambda: ufl.tr(t)))
+        cx.secondary(cx.step(lambda: ufl.det(ufl.det(t))))
         cx.secondary(cx.step(lambda: t[0, :]))
     cx.secondary(cx.step(lambda: ufl.variable(t)))
     return r
@@ -923,19 +1004,19 @@ EVENTS = [
     ),
     Event("cfd_replace", (F,), _cfd(do_replace_functions=True, complex_mode=True)),
     # --- single algorithms
-    Event("expand_derivatives", FEI, ev_expand_derivatives, core=True),
+    Event("expand_derivatives", FEIB, ev_expand_derivatives, core=True),
     Event("expand_indices", FEI, ev_expand_indices),
-    Event("apply_algebra_lowering", FEI, ev_algebra_lowering, core=True),
-    Event("apply_derivatives", FEI, ev_apply_derivatives),
+    Event("apply_algebra_lowering", FEIB, ev_algebra_lowering, core=True),
+    Event("apply_derivatives", FEIB, ev_apply_derivatives),
     Event("apply_coordinate_derivatives", FEI, ev_coordinate_derivatives),
     Event("apply_function_pullbacks", FEI, ev_function_pullbacks),
     Event("apply_geometry_lowering", FEI, ev_geometry_lowering),
     Event("apply_integral_scaling", FI, ev_integral_scaling, core=True),
     Event("apply_restrictions", FEI, ev_restrictions),
     Event("apply_default_restrictions", FEI, ev_default_restrictions),
-    Event("remove_complex_nodes", FEI, ev_remove_complex_nodes),
-    Event("renumber_indices", FEI, ev_renumber_indices),
-    Event("replace", FEI, ev_replace, core=True),
+    Event("remove_complex_nodes", FEIB, ev_remove_complex_nodes),
+    Event("renumber_indices", FEIB, ev_renumber_indices),
+    Event("replace", FEIB, ev_replace, core=True),
     Event("change_to_reference_grad", FEI, ev_change_to_reference_grad),
     Event("estimate_degree", FEI, ev_estimate_degree),
     Event("attach_estimated_degrees", (F,), ev_attach_estimated_degrees, core=True),
@@ -948,17 +1029,17 @@ EVENTS = [
     Event("preprocess_form", (F,), ev_preprocess_form),
     Event("group_form_integrals", (F,), ev_group_integrals),
     # --- analysis
-    Event("analysis", FEI, ev_analysis),
+    Event("analysis", FEIB, ev_analysis),
     Event("signature", FEI, ev_signature, core=True),
     Event("form_accessors", (F,), ev_form_accessors, core=True),
     Event("expr_accessors", (E_, I_), ev_expr_accessors, core=True),
     Event("validate", (F,), ev_validate),
     Event("check_integrand", (E_, I_), ev_check_integrand),
     Event("sorted_expr", FEI, ev_sorted_expr, core=True),
-    Event("str_repr", FEI, ev_str_repr),
-    Event("pickle", FEI, ev_pickle),
+    Event("str_repr", FEIB, ev_str_repr),
+    Event("pickle", FEIB, ev_pickle),
     Event("eq_clone", FEI, ev_eq_clone, core=True),
-    Event("eq_rebuild", FEI, ev_eq_rebuild, core=True, first_only=True),
+    Event("eq_rebuild", FEIB, ev_eq_rebuild, core=True, first_only=True),
     # --- form operators
     Event("lhs", (F,), ev_lhs),
     Event("rhs", (F,), ev_rhs),
@@ -967,7 +1048,7 @@ EVENTS = [
     Event("action", (F,), ev_action, req=("arg",), core=True),
     Event("adjoint", (F,), ev_adjoint, req=("arg",)),
     Event("energy_norm", (F,), ev_energy_norm, req=("arg",)),
-    Event("derivative", (F, E_), ev_derivative, req=("coef",), core=True),
+    Event("derivative", (F, E_, B_), ev_derivative, req=("coef",), core=True),
     Event("derivative_cd", (F, E_), ev_derivative_cd, req=("coef",)),
     Event("derivative_x", (F,), ev_derivative_x),
     Event("sensitivity_rhs", (F,), ev_sensitivity_rhs, req=("coef",)),
@@ -979,6 +1060,12 @@ EVENTS = [
     Event("measure_reconf", FI, ev_measure_reconf, req=("nonempty",), core=True),
     Event("integral_reconstruct", FI, ev_integral_reconstruct, req=("nonempty",), core=True),
     Event("integral_to_form", (I_,), ev_integral_to_form, core=True),
+    # --- base forms
+    Event("action_identity", (F, B_), ev_action_identity, core=True),
+    Event("bf_action", (B_,), ev_bf_action, core=True),
+    Event("bf_adjoint", (B_,), ev_bf_adjoint, core=True),
+    Event("bf_arith", (B_,), ev_bf_arith, core=True),
+    Event("bf_accessors", (B_,), ev_bf_accessors, core=True),
     # --- expression constructors
     Event("op_abs", (E_,), ev_op_abs, core=True),
     Event("op_complex", (E_,), ev_op_complex),
